@@ -12,6 +12,9 @@
 //       walk, BTree::verify(), the allocator ledger; at the end of the history the element ledger.
 #include "C01_btree_common.hpp"
 
+#include <cmath>
+#include <cstring>
+
 namespace verif {
 namespace bt {
 
@@ -108,6 +111,7 @@ class History {
     const bool WM, INV;
     const bool SC; // scale mode (target btree_scale): huge node capacities, nodes filled first, cost-bounded history
     const bool AL; // alias mode (targets btree_alias / btree_alias_invariants): destructive-move element types + aliasing operations
+    const bool AP; // api mode (targets btree_api / btree_api_invariants): all of the above plus the public members found by the API audit
     const char* const prefix;
     Slot s0, s1;
     int U = 8;
@@ -193,7 +197,7 @@ class History {
         if (g.limit != ~0ull) {
             unsigned long long pm = g.calls * 1000ull / g.limit;
             if (pm > g.worst_permille) g.worst_permille = pm;
-            if (pm >= 10) pbt::label("budget:used>=1%");
+            if (pm >= 10) lab("budget:used>=1%");
         }
         g.limit = g.alloc_limit = ~0ull;
         have_arg_key = false;
@@ -201,7 +205,15 @@ class History {
     size_t dups(int c, int k) { return WM ? S(c).m->count(k) : 0; }
     //! labels of secondary interest are left out of the (already long) histogram of the scale target
     void minor(const char* l) {
-        if (!SC && !AL) pbt::label(l);
+        if (!SC && !AL && !AP) pbt::label(l);
+    }
+    //! api mode (targets btree_api / btree_api_invariants) runs every operation of the other targets plus its own: only the
+    //! operation labels, the classes of the new pieces and a few structural labels are kept (the driver has 96 label slots)
+    void lab(const char* l) {
+        if (AP && strncmp(l, "op:", 3) != 0 && strncmp(l, "api:", 4) != 0 && strncmp(l, "key:", 4) != 0 && strcmp(l, "height>=3") != 0 &&
+            strcmp(l, "leaf_split") != 0 && strcmp(l, "leaf_merge") != 0 && strcmp(l, "mutation_after_bulk_load") != 0 && strcmp(l, "erased_to_empty") != 0)
+            return;
+        pbt::label(l);
     }
 #define BT_CHECK(cond, sub, msgexpr) PBT_CHECK(cond, std::string(prefix) + "/" sub, hdr() << msgexpr)
 
@@ -236,6 +248,21 @@ class History {
         const bool wd = ci.is_map();
         BT_CHECK(t.size() == m.size(), "size", "slot " << c << " size() = " << t.size() << ", std container has " << m.size());
         BT_CHECK(t.empty() == m.empty(), "size", "slot " << c << " empty() = " << t.empty() << ", std container says " << m.empty());
+        { // observers found by the API audit (no draw): get_stats().size, max_size(), key_comp() state
+            ITree::Stats st;
+            t.stats(st);
+            BT_CHECK(st.size == m.size(), "size", "slot " << c << " get_stats().size = " << st.size << ", std container has " << m.size());
+            BT_CHECK(t.max_size() >= m.size() && t.max_size() == S(1 - c).t->max_size(), "size",
+                     "slot " << c << " max_size() = " << t.max_size() << " (size " << m.size() << ", other container's max_size() " << S(1 - c).t->max_size() << ")");
+            if (ci.stateful() && full) {
+                unsigned ts = 0, ms = 0;
+                bool td = false, md = false;
+                t.cmp_state(ts, td);
+                m.cmp_state(ms, md);
+                BT_CHECK(ts == ms && td == md, "comparator",
+                         "slot " << c << " key_comp() has state (shift=" << ts << ",desc=" << td << "), the std container's comparator has (shift=" << ms << ",desc=" << md << ")");
+            }
+        }
         std::vector<KD> mseq;
         m.seq(mseq);
         if (o != mseq) {
@@ -256,7 +283,7 @@ class History {
             // legal difference: the model adopts the implementation's order of equivalent entries
             m.clear();
             m.append(o);
-            pbt::label("model_adopts_order");
+            lab("model_adopts_order");
         }
         // the other traversal directions / iterator kinds must show the same sequence
         size_t bound = o.size() + 4;
@@ -283,28 +310,28 @@ class History {
     }
 
     void delta_labels(const Walk& pre, const Walk& post, OpClass oc, const void* target_leaf) {
-        if (post.height >= 3) pbt::label("height>=3");
-        if (post.height >= 4) pbt::label("height>=4");
-        if (post.height >= 5) pbt::label("height>=5");
-        if (post.dup_spans) pbt::label("dup_run_spans_leaves");
+        if (post.height >= 3) lab("height>=3");
+        if (post.height >= 4) lab("height>=4");
+        if (post.height >= 5) lab("height>=5");
+        if (post.dup_spans) lab("dup_run_spans_leaves");
         if (oc == OC_INSERT) {
-            if (post.leaves > pre.leaves) pbt::label("leaf_split");
+            if (post.leaves > pre.leaves) lab("leaf_split");
             bool grew = post.height > pre.height && pre.height >= 1;
-            if (grew) pbt::label("root_split");
-            if (post.inners > pre.inners + (grew ? 1 : 0)) pbt::label("inner_split");
+            if (grew) lab("root_split");
+            if (post.inners > pre.inners + (grew ? 1 : 0)) lab("inner_split");
         }
         else if (oc == OC_ERASE) {
-            if (post.leaves < pre.leaves && post.leaves > 0) pbt::label("leaf_merge");
+            if (post.leaves < pre.leaves && post.leaves > 0) lab("leaf_merge");
             int hdrop = pre.height > post.height ? pre.height - post.height : 0;
-            if (hdrop && post.height >= 1) pbt::label("root_collapse");
-            if (post.height == 0 && pre.height >= 1) pbt::label("erased_to_empty");
-            if (pre.inners > post.inners + (size_t)hdrop) pbt::label("inner_merge");
+            if (hdrop && post.height >= 1) lab("root_collapse");
+            if (post.height == 0 && pre.height >= 1) lab("erased_to_empty");
+            if (pre.inners > post.inners + (size_t)hdrop) lab("inner_merge");
             if (post.leaves == pre.leaves && target_leaf) {
                 int ti = index_of(pre.leaf_ids, target_leaf);
                 if (ti >= 0 && post.leaf_ids == pre.leaf_ids && post.size + 1 == pre.size && post.leaf_fill[ti] != pre.leaf_fill[ti] - 1) {
                     size_t n = pre.leaf_fill.size();
-                    if ((size_t)ti + 1 < n && post.leaf_fill[ti + 1] < pre.leaf_fill[ti + 1]) pbt::label("leaf_shift_left");
-                    if (ti > 0 && post.leaf_fill[ti - 1] < pre.leaf_fill[ti - 1]) pbt::label("leaf_shift_right");
+                    if ((size_t)ti + 1 < n && post.leaf_fill[ti + 1] < pre.leaf_fill[ti + 1]) lab("leaf_shift_left");
+                    if (ti > 0 && post.leaf_fill[ti - 1] < pre.leaf_fill[ti - 1]) lab("leaf_shift_right");
                 }
             }
             // inner shift: a surviving node changed its parent although no node of the parent's level disappeared
@@ -324,12 +351,12 @@ class History {
                     int pl = n.level + 1;
                     if (pl >= pre.height || pl >= post.height || cpre[pl] != cpost[pl]) continue;
                     if (!prank.count(it->second)) continue; // old parent was freed (merge)
-                    if (prank[n.parent] < prank[it->second]) pbt::label("inner_shift_left");
-                    else pbt::label("inner_shift_right");
+                    if (prank[n.parent] < prank[it->second]) lab("inner_shift_left");
+                    else lab("inner_shift_right");
                 }
             }
             if (pre.seps != post.seps) {
-                pbt::label("erase_changes_separator");
+                lab("erase_changes_separator");
                 sep_changed = true;
             }
         }
@@ -348,6 +375,29 @@ class History {
                 pbt::fail("C02/verify", hdr() + "slot " + std::to_string(c) + ": BTree::verify() failed: " + e.what());
             }
             BT_CHECK(sl.t->size() == post.size, "inspect-stats", "size() = " << sl.t->size() << " but the leaves hold " << post.size << " entries");
+            // the PUBLIC statistics accessor (get_stats() of the facade, nodes(), avgfill_leaves(), leaf_slots / inner_slots)
+            ITree::Stats st;
+            sl.t->stats(st);
+            const double fill = post.leaves ? (double)post.size / (double)(post.leaves * (size_t)ci.leaf) : 0.0;
+            BT_CHECK(st.size == post.size && st.leaves == post.leaves && st.inner_nodes == post.inners && st.nodes == post.leaves + post.inners &&
+                         st.leaf_slots == (unsigned)ci.leaf && st.inner_slots == (unsigned)ci.inner && std::fabs(st.avgfill - fill) <= 1e-12,
+                     "get-stats",
+                     "get_stats() reports size=" << st.size << " leaves=" << st.leaves << " inner_nodes=" << st.inner_nodes << " nodes()=" << st.nodes
+                                                 << " avgfill_leaves()=" << st.avgfill << " leaf_slots=" << st.leaf_slots << " inner_slots=" << st.inner_slots
+                                                 << " but the structure has size=" << post.size << " leaves=" << post.leaves << " inner nodes=" << post.inners
+                                                 << " fill=" << fill << " (capacities " << ci.leaf << "/" << ci.inner << ")");
+            // get_allocator() is the allocator the nodes of this tree were obtained from (checked where allocators change hands)
+            if (ci.counting && oc == OC_OTHER) {
+                const long ar = sl.t->alloc_arena();
+                AllocLedger& al = AllocLedger::get();
+                for (const Walk::NI& nd : post.nodes) {
+                    auto it = al.arena_of.find(nd.id);
+                    BT_CHECK(it != al.arena_of.end() && (long)it->second == ar, "get-allocator",
+                             "slot " << c << ": get_allocator() is arena " << ar << " but a node of the tree was obtained from arena "
+                                     << (it == al.arena_of.end() ? -1 : it->second));
+                }
+                BT_CHECK(sl.t->alloc_equal(*sl.t), "get-allocator", "get_allocator() != get_allocator() of the same container");
+            }
         }
         if (!post.bad) delta_labels(sl.shape, post, oc, target_leaf);
         if (SC) scale_labels(post);
@@ -363,15 +413,15 @@ class History {
         }
         // scale mode non-triviality: a node of one of the big capacities (>= 100 slots) has been filled beyond half
         if ((ci.leaf >= 100 && lf > ci.leaf / 2) || (ci.inner >= 100 && inf > ci.inner / 2)) nt_flag = true;
-        if (lf >= 256) pbt::label("scale:leaf_fill>=256");
-        if (lf > 32768) pbt::label("scale:leaf_fill>32768");
-        if (lf == 65535) pbt::label("scale:leaf_fill=65535");
-        if (lf == ci.leaf) pbt::label("scale:leaf_exactly_full");
-        if (inf >= 256) pbt::label("scale:inner_fill>=256");
-        if (inf > 32768) pbt::label("scale:inner_fill>32768");
-        if (inf == ci.inner) pbt::label("scale:inner_exactly_full");
+        if (lf >= 256) lab("scale:leaf_fill>=256");
+        if (lf > 32768) lab("scale:leaf_fill>32768");
+        if (lf == 65535) lab("scale:leaf_fill=65535");
+        if (lf == ci.leaf) lab("scale:leaf_exactly_full");
+        if (inf >= 256) lab("scale:inner_fill>=256");
+        if (inf > 32768) lab("scale:inner_fill>32768");
+        if (inf == ci.inner) lab("scale:inner_exactly_full");
         if (inf == 65535) {
-            pbt::label("scale:inner_fill=65535");
+            lab("scale:inner_fill=65535");
             // an inner node with 65535 keys has 65536 children: a class of its own (the child loops must not use a 16-bit
             // counter). Can be switched off through a known-findings exclusion; the case then ends here, as passed,
             // without running any further operation or destructor on that tree.
@@ -419,7 +469,7 @@ class History {
         if (is_erase && height_before >= 3) nt_flag = true;
         if (S(c).bulk_pending) {
             nt_flag = true;
-            pbt::label("mutation_after_bulk_load");
+            lab("mutation_after_bulk_load");
             S(c).bulk_pending = false;
         }
     }
@@ -458,10 +508,10 @@ class History {
         size_t off = 0;
         for (size_t i = 0; i < li; ++i) off += (size_t)lf[i];
         if (off + slot >= sl.obs.size()) return sl.obs.size() - 1; // (cannot happen while obs and shape belong together)
-        if (lf[li] >= 256 && slot >= 256) pbt::label("scale:key_at_slot>=256");
-        if (slot > 32768) pbt::label("scale:key_at_slot>32768");
-        if (li >= 256) pbt::label("scale:key_under_child>=256");
-        if (li > 32768) pbt::label("scale:key_under_child>32768");
+        if (lf[li] >= 256 && slot >= 256) lab("scale:key_at_slot>=256");
+        if (slot > 32768) lab("scale:key_at_slot>32768");
+        if (li >= 256) lab("scale:key_under_child>=256");
+        if (li > 32768) lab("scale:key_under_child>32768");
         return off + slot;
     }
 
@@ -534,7 +584,7 @@ class History {
         unsigned two = ci.is_map() ? (unsigned)src.index(2) : 0; // maps: insert2(key, data) as well
         size_t hint_rank = with_hint ? src.index(n + 1) : 0;
         opname = with_hint ? (two ? "insert2(hint,k,d)" : "insert(hint,v)") : (two ? "insert2(k,d)" : "insert(v)");
-        pbt::label(with_hint ? "op:insert_hint" : "op:insert");
+        lab(with_hint ? "op:insert_hint" : "op:insert");
         PBT_LOG("#" << nsteps << " " << opname << " slot " << c << " k=" << k << " d=" << d);
         if (with_hint) PBT_LOG(" hint@" << hint_rank);
         PBT_LOG("\n");
@@ -576,7 +626,7 @@ class History {
         std::vector<KD> ks;
         draw_pattern(ks, count);
         opname = "insert(first,last)";
-        pbt::label("op:insert_range");
+        lab("op:insert_range");
         PBT_LOG("#" << nsteps << " " << opname << " slot " << c << " " << show(ks, ci.is_map()) << "\n");
         int hb = sl.shape.height;
         arm_keys(ks.size());
@@ -635,7 +685,7 @@ class History {
     }
 
     void op_erase_one(int c) {
-        pbt::label("op:erase_one");
+        lab("op:erase_one");
         do_erase_one(c, draw_key(c));
     }
 
@@ -643,7 +693,7 @@ class History {
         Slot& sl = S(c);
         int k = draw_key(c);
         opname = "erase(k)";
-        pbt::label("op:erase_key");
+        lab("op:erase_key");
         PBT_LOG("#" << nsteps << " " << opname << " slot " << c << " k=" << k << "\n");
         recent_key = k;
         int hb = sl.shape.height;
@@ -692,8 +742,8 @@ class History {
             while (lo > 0 && equiv(c, o[lo - 1].first, x.first)) --lo;
             while (hi < n && equiv(c, o[hi].first, x.first)) ++hi;
             if (hi - lo >= 2) {
-                pbt::label("erase_iter_in_dup_run");
-                if (sl.shape.dup_spans && sl.t->leaf_at(lo, n) != sl.t->leaf_at(hi - 1, n)) pbt::label("erase_iter_dup_run_spans_leaves");
+                lab("erase_iter_in_dup_run");
+                if (sl.shape.dup_spans && sl.t->leaf_at(lo, n) != sl.t->leaf_at(hi - 1, n)) lab("erase_iter_dup_run_spans_leaves");
             }
         }
         arm_key(3 + dups(c, x.first), x.first); // (the run of equivalent keys may have to be walked child by child)
@@ -706,7 +756,7 @@ class History {
 
     void op_erase_iter(int c) {
         Slot& sl = S(c);
-        pbt::label("op:erase_iter");
+        lab("op:erase_iter");
         unsigned how = (unsigned)src.weighted({6, 2, 2, 1});
         if (how == 3 && sl.obs.size() < MAXSIZE) { // erase what insert just returned
             int k = draw_key(c), d = fresh_datum();
@@ -745,7 +795,7 @@ class History {
     //! macro operation: several consecutive erasures, each one a compared step
     void op_erase_sweep(int c) {
         Slot& sl = S(c);
-        pbt::label("op:erase_sweep");
+        lab("op:erase_sweep");
         unsigned count = (unsigned)src.range(1, 24);
         if (SC) count = 1 + (count - 1) % 6; // every erasure is a fully compared O(n) step
         unsigned how = (unsigned)src.index(4);
@@ -767,7 +817,7 @@ class History {
         unsigned q = (unsigned)src.index(4);
         static const char* names[4] = {"exists(k)", "count(k)", "find(k)", "find(k) const"};
         opname = names[q];
-        pbt::label("op:lookup");
+        lab("op:lookup");
         PBT_LOG("#" << nsteps << " " << opname << " slot " << c << " k=" << k << "\n");
         const size_t n = sl.obs.size();
         size_t cnt = 0, lbr = 0;
@@ -775,6 +825,7 @@ class History {
         else
             for (const KD& e : sl.obs) cnt += equiv(c, e.first, k);
         if (sep_changed_prev) minor("lookup_after_separator_change");
+        key_class(c, k, cnt > 0);
         arm_key(2 + cnt, k);
         if (q == 0) {
             bool r = t.exists(k);
@@ -796,7 +847,7 @@ class History {
                 }
             }
         }
-        pbt::label(cnt ? "lookup_hit" : "lookup_miss");
+        lab(cnt ? "lookup_hit" : "lookup_miss");
         finish(1 << c, OC_OTHER, nullptr, false);
     }
 
@@ -817,13 +868,14 @@ class History {
         unsigned q = (unsigned)src.index(6);
         static const char* names[6] = {"lower_bound(k)", "upper_bound(k)", "equal_range(k)", "lower_bound(k) const", "upper_bound(k) const", "equal_range(k) const"};
         opname = names[q];
-        pbt::label("op:bounds");
+        lab("op:bounds");
         if (sep_changed_prev) minor("bound_after_separator_change");
         PBT_LOG("#" << nsteps << " " << opname << " slot " << c << " k=" << k << "\n");
         size_t lbr = 0, ubr = 0;
         if (WM) lbr = sl.m->lower_rank(k), ubr = sl.m->upper_rank(k);
         Pos a, b;
         unsigned which = q % 3;
+        if (WM) key_class(c, k, ubr > lbr);
         arm_key(3 + (ubr - lbr), k);
         sl.t->bound(k, which, q >= 3, a, b, WM, sl.obs.size());
         if (which == 0) check_pos(c, a, lbr, "lower");
@@ -832,8 +884,8 @@ class History {
             check_pos(c, a, lbr, "first");
             check_pos(c, b, ubr, "second");
         }
-        if (ubr > lbr + 1) pbt::label("bounds_on_dup_run");
-        if (WM && lbr == sl.obs.size() && !sl.obs.empty()) pbt::label("bound_is_end");
+        if (ubr > lbr + 1) lab("bounds_on_dup_run");
+        if (WM && lbr == sl.obs.size() && !sl.obs.empty()) lab("bound_is_end");
         finish(1 << c, OC_OTHER, nullptr, false);
     }
 
@@ -847,7 +899,7 @@ class History {
         static const char* kn[4] = {"iterator", "const_iterator", "reverse_iterator", "const_reverse_iterator"};
         const char* kindname = kn[kind];
         opname = "iterator walk";
-        pbt::label("op:walk");
+        lab("op:walk");
         minor(kind >= 2 ? "walk_reverse_iterator" : "walk_forward_iterator");
         size_t pos = src.index(n + 1);
         unsigned steps = (unsigned)src.range(0, 12);
@@ -892,7 +944,7 @@ class History {
     void op_clear(int c) {
         Slot& sl = S(c);
         opname = "clear()";
-        pbt::label("op:clear");
+        lab("op:clear");
         PBT_LOG("#" << nsteps << " clear slot " << c << " (size " << sl.obs.size() << ")\n");
         int hb = sl.shape.height;
         bool had = !sl.obs.empty();
@@ -907,7 +959,7 @@ class History {
     void op_copy(int c) {
         int j = (int)src.index(2);
         opname = "copy constructor";
-        pbt::label("op:copy_construct");
+        lab("op:copy_construct");
         PBT_LOG("#" << nsteps << " slot " << j << " = new Tree(slot " << c << ") (size " << S(c).obs.size() << ")\n");
         arm_bulk();
         std::unique_ptr<ITree> n(S(c).t->clone());
@@ -921,7 +973,7 @@ class History {
     void op_assign(int c) {
         int j = (int)src.index(2);
         opname = (j == c) ? "operator= (self)" : "operator=";
-        pbt::label(j == c ? "op:assign_self" : "op:assign");
+        lab(j == c ? "op:assign_self" : "op:assign");
         PBT_LOG("#" << nsteps << " slot " << j << " = slot " << c << " (sizes " << S(j).obs.size() << " <- " << S(c).obs.size() << ")\n");
         if (j != c && S(j).shape.height >= 2) minor("assign_over_multi_level");
         arm_bulk();
@@ -933,7 +985,7 @@ class History {
 
     void op_swap() {
         opname = "swap";
-        pbt::label("op:swap");
+        lab("op:swap");
         PBT_LOG("#" << nsteps << " slot0.swap(slot1) (sizes " << s0.obs.size() << ", " << s1.obs.size() << ")\n");
         arm_bulk();
         s0.t->swap(*s1.t);
@@ -943,19 +995,27 @@ class History {
         finish(3, OC_OTHER);
     }
 
-    void op_construct(int c) {
+    //! api = true (api mode): also the forms with comparator AND allocator, ranges through other iterator types
+    void op_construct(int c, bool api = false) {
         Slot& sl = S(c);
-        unsigned variant = (unsigned)src.index(6);
+        unsigned variant = (unsigned)src.index(api ? 8 : 6);
+        unsigned itk = 0;
+        const bool ranged = (variant >= 3 && variant != 6);
         std::vector<KD> ks;
-        if (variant >= 3) draw_pattern(ks, (unsigned)src.range(0, 24));
-        static const char* names[6] = {"Tree()", "Tree(cmp)", "Tree(alloc)", "Tree(first,last)", "Tree(first,last,cmp)", "Tree(first,last,alloc)"};
+        if (ranged) draw_pattern(ks, (unsigned)src.range(0, 24));
+        if (api && ranged) itk = (unsigned)src.index(3); // vector::iterator, single-pass input iterator, pointers
+        static const char* names[8] = {"Tree()",     "Tree(cmp)", "Tree(alloc)", "Tree(first,last)", "Tree(first,last,cmp)", "Tree(first,last,alloc)",
+                                       "Tree(cmp,alloc)", "Tree(first,last,cmp,alloc)"};
         opname = names[variant];
-        pbt::label(variant >= 3 ? "op:range_construct" : "op:construct_empty");
-        PBT_LOG("#" << nsteps << " slot " << c << " = " << opname << " " << show(ks, ci.is_map()) << "\n");
+        lab(ranged ? "op:range_construct" : "op:construct_empty");
+        if (variant == 6) lab("api:ctor_cmp_alloc");
+        if (variant == 7) lab("api:ctor_range_cmp_alloc");
+        if (itk) range_label(itk);
+        PBT_LOG("#" << nsteps << " slot " << c << " = " << opname << " " << show(ks, ci.is_map()) << " iterator kind " << itk << "\n");
         arm_keys(ks.size() + 1);
-        std::unique_ptr<ITree> n(sl.t->make(variant, ks, shift, desc));
+        std::unique_ptr<ITree> n(sl.t->make(variant | (itk << 4), ks, shift, desc));
         sl.t = std::move(n); // destroys the previous container
-        if (WM) sl.m.reset(sl.m->make(variant == 1 || variant == 4, ks, shift, desc));
+        if (WM) sl.m.reset(sl.m->make(variant == 1 || variant == 4 || variant == 6 || variant == 7, ks, shift, desc));
         sl.bulk_pending = false;
         finish(1 << c, OC_OTHER);
     }
@@ -1002,7 +1062,7 @@ class History {
         default: f = src.range(1, 2 * C + 2); break;
         }
         static const char* fl[5] = {"scale:fill_half..full", "scale:fill_full+-1", "scale:fill_second_node", "scale:fill_at_threshold", "scale:fill_any"};
-        pbt::label(fl[cls]);
+        lab(fl[cls]);
         long n = f;
         if (inner_dim) {
             long per = by_insert ? std::max(1l, L / 2) : L; // ascending inserts leave the split-off leaves half full
@@ -1013,7 +1073,8 @@ class History {
         return n;
     }
 
-    void op_bulk_load(int c) {
+    //! itk != 0 (api mode): the sorted range is presented through another random-access iterator type (ITree::bulk_load_it)
+    void op_bulk_load(int c, unsigned itk = 0) {
         Slot& sl = S(c);
         if (!sl.obs.empty()) op_clear(c); // bulk_load() is defined for an empty tree only
         const long L = ci.leaf, I = ci.inner;
@@ -1041,18 +1102,23 @@ class History {
         std::vector<KD> ks;
         sorted_keys(c, n, rep, SC ? stride : 1u, ks);
         opname = "bulk_load(first,last)";
-        pbt::label("op:bulk_load");
-        if (n > 0 && n % L == 0) pbt::label("bulk_exact_multiple");
-        if (n == L * (I + 1) || n == L * (I + 1) * (I + 1)) pbt::label("bulk_exact_full_level");
-        if (n > L) pbt::label("bulk_multi_leaf");
+        lab("op:bulk_load");
+        if (n > 0 && n % L == 0) lab("bulk_exact_multiple");
+        if (n == L * (I + 1) || n == L * (I + 1) * (I + 1)) lab("bulk_exact_full_level");
+        if (n > L) lab("bulk_multi_leaf");
         PBT_LOG("#" << nsteps << " " << opname << " slot " << c << " n=" << n << " " << show(ks, ci.is_map()) << "\n");
         arm_bulk(ks.size());
-        sl.t->bulk_load(ks);
+        if (itk) {
+            static const char* bl[4] = {"", "api:bulk_load_pointers", "api:bulk_load_deque_iterators", "api:bulk_load_const_iterators"};
+            lab(bl[itk & 3]);
+            sl.t->bulk_load_it(ks, itk);
+        }
+        else sl.t->bulk_load(ks);
         if (WM) sl.m->append(ks);
         if (!ks.empty()) recent_key = ks[ks.size() / 2].first;
         finish(1 << c, OC_OTHER);
         sl.bulk_pending = sl.shape.leaves >= 2;
-        if (sl.shape.height >= 3) pbt::label("bulk_height>=3");
+        if (sl.shape.height >= 3) lab("bulk_height>=3");
     }
 
     // ----- ALIASING operations (alias mode only) ---------------------------------------------------------------------
@@ -1072,7 +1138,7 @@ class History {
         case 3: r = lo; break;
         default: break;
         }
-        if (hi - lo >= 2) pbt::label(r == lo ? "alias:arg_first_of_dup_run" : "alias:arg_inside_dup_run");
+        if (hi - lo >= 2) lab(r == lo ? "alias:arg_first_of_dup_run" : "alias:arg_inside_dup_run");
         return r;
     }
     size_t first_of_run(int c, size_t r) {
@@ -1101,9 +1167,9 @@ class History {
         const int k = sl.obs[ra].first, d = two ? sl.obs[rb].second : sl.obs[ra].second;
         opname = with_hint ? (two ? "insert2(hint, it_a->first, it_b->second) [aliased]" : "insert(hint, *it) [aliased]")
                            : (two ? "insert2(it_a->first, it_b->second) [aliased]" : "insert(*it) [aliased]");
-        pbt::label(two ? "op:insert2_alias" : "op:insert_alias");
-        if (with_hint) pbt::label("op:insert_alias_hint");
-        if (rb != ra) pbt::label("alias:insert2_data_of_other_element");
+        lab(two ? "op:insert2_alias" : "op:insert_alias");
+        if (with_hint) lab("op:insert_alias_hint");
+        if (rb != ra) lab("alias:insert2_data_of_other_element");
         PBT_LOG("#" << nsteps << " " << opname << " slot " << c << " it_a@" << ra << " it_b@" << rb << " -> " << k << ":" << d);
         if (with_hint) PBT_LOG(" hint@" << hint_rank);
         PBT_LOG("\n");
@@ -1115,8 +1181,8 @@ class History {
             for (size_t i = 0; i < lf.size(); ++i) {
                 if (ra < off + (size_t)lf[i]) {
                     if (lf[i] == ci.leaf && ci.multi()) {
-                        pbt::label("alias:arg_in_full_leaf");
-                        if (ra - off >= (size_t)lf[i] / 2) pbt::label("alias:arg_in_upper_half_of_full_leaf");
+                        lab("alias:arg_in_full_leaf");
+                        if (ra - off >= (size_t)lf[i] / 2) lab("alias:arg_in_upper_half_of_full_leaf");
                     }
                     break;
                 }
@@ -1164,12 +1230,12 @@ class History {
         // known-findings switch (only if listed as excluded): erase(key) of a duplicate-key container with an aliased key
         if (!one && ci.multi() && pbt::excluded("C01/aliased-erase")) one = true;
         if (one) {
-            pbt::label("op:erase_one_alias");
+            lab("op:erase_one_alias");
             do_erase_one(c, k, (long)ra);
             return;
         }
         opname = "erase(key of *it) [aliased]";
-        pbt::label("op:erase_key_alias");
+        lab("op:erase_key_alias");
         PBT_LOG("#" << nsteps << " " << opname << " slot " << c << " it@" << ra << " k=" << k << "\n");
         recent_key = k;
         int hb = sl.shape.height;
@@ -1179,7 +1245,7 @@ class History {
             size_t e = sl.m->erase_key(k);
             BT_CHECK(cnt == e, "erase-result", "erase(key of the element at rank " << ra << " = " << k << ") returned " << cnt << ", std container erased " << e);
         }
-        if (cnt > 1) pbt::label("alias:erase_key_removes_run");
+        if (cnt > 1) lab("alias:erase_key_removes_run");
         if (cnt) note_mutation(c, true, hb);
         finish(1 << c, OC_ERASE);
     }
@@ -1196,7 +1262,7 @@ class History {
         static const char* names[6] = {"exists(key of *it) [aliased]", "count(key of *it) [aliased]", "find(key of *it) [aliased]", "lower_bound(key of *it) [aliased]",
                                        "upper_bound(key of *it) [aliased]", "equal_range(key of *it) [aliased]"};
         opname = names[q];
-        pbt::label("op:query_alias");
+        lab("op:query_alias");
         PBT_LOG("#" << nsteps << " " << opname << " slot " << c << " it@" << ra << " k=" << k << "\n");
         size_t cnt = 0, lbr = 0, ubr = 0;
         if (WM) cnt = sl.m->count(k), lbr = sl.m->lower_rank(k), ubr = sl.m->upper_rank(k);
@@ -1225,17 +1291,246 @@ class History {
     //! c.swap(c): must leave the container as it is
     void op_swap_self(int c) {
         opname = "swap (self)";
-        pbt::label("op:swap_self");
+        lab("op:swap_self");
         PBT_LOG("#" << nsteps << " slot" << c << ".swap(slot" << c << ") (size " << S(c).obs.size() << ")\n");
         arm_bulk();
         S(c).t->swap_self();
         finish(1 << c, OC_OTHER);
     }
 
+    // ----- operations found by the API audit (api mode only) ---------------------------------------------------------
+    //! where the argument of a lookup / bound query lies relative to the contents
+    void key_class(int c, int k, bool present) {
+        if (!AP) return;
+        const std::vector<KD>& o = S(c).obs;
+        if (o.empty()) lab("key:container_empty");
+        else if (present) lab("key:present");
+        else if (less(c, k, o.front().first)) lab("key:below_minimum");
+        else if (less(c, o.back().first, k)) lab("key:above_maximum");
+        else lab("key:absent_inside");
+    }
+    void range_label(unsigned itk) {
+        static const char* rl[5] = {"", "api:range_single_pass_input_iterator", "api:range_pointers", "api:range_list_iterators", "api:range_convertible_elements"};
+        lab(rl[itk % 5]);
+    }
+    size_t count_equiv(int c, int k) {
+        if (WM) return S(c).m->count(k);
+        size_t cnt = 0;
+        for (const KD& e : S(c).obs) cnt += equiv(c, e.first, k);
+        return cnt;
+    }
+
+    //! btree_map::operator[] (read, write through the returned reference) and writes through iterators ((*it).second = d,
+    //! it->second = d: iterator::reference is value_type&), as std::map / std::multimap allow
+    void op_subscript(int c) {
+        Slot& sl = S(c);
+        if (!ci.is_map()) return op_lookup(c);
+        unsigned v = (unsigned)src.index(3); // 0: m[k] = d   1: read m[k]   2: write through an iterator
+        if (ci.kind != MAP) v = 2;           // btree_multimap has no operator[]
+        const size_t n = sl.obs.size();
+        if (v == 2) {
+            if (n == 0) return op_insert(c, false);
+            unsigned how = (unsigned)src.index(4); // 0 begin()+r  1 end()-(n-r)  2 find(k)  3 lower_bound(k)
+            size_t r = src.index(n);
+            const int k = sl.obs[r].first;
+            const int d = fresh_datum();
+            const bool arrow = src.boolean();
+            opname = arrow ? "it->second = d" : "(*it).second = d";
+            lab("op:write_through_iterator");
+            PBT_LOG("#" << nsteps << " " << opname << " slot " << c << " iterator from " << how << " rank " << r << " key " << k << " d=" << d << "\n");
+            Pos p;
+            arm_key(3 + count_equiv(c, k), k);
+            sl.t->locate(how, r, n, k, p, true);
+            need_reachable(p, "iterator for a write", n);
+            BT_CHECK(!p.is_end && p.rank < n, "iterator-position", "iterator to an existing element (rank " << r << ", key " << k << ") is end()");
+            if (WM) BT_CHECK(p.value == sl.obs[p.rank], "iterator-position", "iterator at rank " << p.rank << " dereferences to " << show(p.value) << ", expected " << show(sl.obs[p.rank]));
+            sl.t->write_cursor(d, arrow);
+            if (WM) sl.m->write_rank(p.rank, d);
+            recent_key = k;
+            finish(1 << c, OC_OTHER);
+            return;
+        }
+        int k = draw_key(c);
+        if (n >= MAXSIZE) k = sl.obs[src.index(n)].first;
+        const int d = fresh_datum();
+        const int dflt = sl.t->default_datum();
+        bool write = (v == 0);
+        const bool present = count_equiv(c, k) > 0;
+        // a default-constructed std::string datum decodes to the moved-from poison: never leave it in the container
+        if (!present && dflt == kPoison) write = true;
+        opname = write ? "m[k] = d" : "read m[k]";
+        lab("op:subscript");
+        lab(present ? "api:subscript_existing_key" : "api:subscript_inserts_default");
+        if (!write) lab("api:subscript_read_only");
+        PBT_LOG("#" << nsteps << " " << opname << " slot " << c << " k=" << k << " d=" << d << "\n");
+        recent_key = k;
+        int hb = sl.shape.height;
+        int before = 0, after = 0, mbefore = 0, mafter = 0;
+        bool same = true;
+        arm_key(6, k);
+        bool have = sl.t->subscript(k, write, d, before, after, same);
+        BT_CHECK(have, "subscript", "internal: operator[] not available for this kind");
+        if (WM) {
+            sl.m->subscript(k, write, d, mbefore, mafter);
+            if (!present) mbefore = dflt, mafter = write ? d : dflt; // (int() == 0 == the model's default; Tracked() holds 0 as well)
+            BT_CHECK(before == mbefore, "subscript",
+                     "m[" << k << "] referred to the datum " << before << ", std::map's refers to " << mbefore << (present ? " (existing key)" : " (new key: data_type())"));
+            BT_CHECK(after == mafter && same, "subscript",
+                     "a second m[" << k << "] gives " << after << (same ? "" : " in ANOTHER element") << ", std::map gives " << mafter << " in the same element");
+        }
+        if (!present) note_mutation(c, false, hb);
+        finish(1 << c, present ? OC_OTHER : OC_INSERT);
+    }
+
+    //! conversions between the iterator flavours / std iterator algorithms at a drawn position (often next to a leaf border)
+    void op_convert(int c) {
+        Slot& sl = S(c);
+        const size_t n = sl.obs.size();
+        unsigned b = src.u8();
+        size_t pos;
+        const std::vector<int>& lf = sl.shape.leaf_fill;
+        bool border = false;
+        if ((b & 1) && lf.size() >= 2) { // first slot of a leaf, or one before / after it
+            size_t li = 1 + src.index(lf.size() - 1), off = 0;
+            for (size_t i = 0; i < li; ++i) off += (size_t)lf[i];
+            pos = off + ((b >> 1) % 3) - 1;
+            border = true;
+        }
+        else pos = src.index(n + 1);
+        if (pos > n) pos = n;
+        unsigned which = (unsigned)src.index(8);
+        static const char* names[8] = {"const_iterator(iterator)",
+                                       "const_reverse_iterator(reverse_iterator)",
+                                       "reverse_iterator(iterator)",
+                                       "const_reverse_iterator(iterator / const_iterator)",
+                                       "iterator(reverse_iterator)",
+                                       "const_iterator(reverse_iterator / const_reverse_iterator)",
+                                       "std::distance / next / prev / advance / reverse_iterator<> on the iterators",
+                                       "default-constructed, copied and assigned iterators"};
+        static const char* labs[8] = {"api:convert_iterator_to_const",     "api:convert_reverse_to_const_reverse", "api:convert_iterator_to_reverse", "api:convert_to_const_reverse",
+                                      "api:convert_reverse_to_iterator", "api:convert_reverse_to_const_iterator", "api:std_iterator_algorithms",     "api:default_and_copied_iterators"};
+        opname = names[which];
+        lab("op:iterator_conversion");
+        PBT_LOG("#" << nsteps << " " << opname << " slot " << c << " position " << pos << " of " << n << "\n");
+        arm_bulk();
+        unsigned flags = 0;
+        std::string msg = sl.t->convert(which, pos, n, flags);
+        if (flags & 1) lab("api:convert_skipped_noncanonical_pair");
+        else {
+            lab(labs[which]);
+            if (border) lab("api:convert_next_to_leaf_border");
+        }
+        if (WM) BT_CHECK(msg.empty(), "iterator-conversion", msg << " (" << n << " elements in " << lf.size() << " leaves)");
+        finish(1 << c, OC_OTHER, nullptr, false);
+    }
+
+    //! key_comp() / value_comp() on drawn pairs, max_size(), get_allocator(), get_stats() on a container that was not just mutated
+    void op_observers(int c) {
+        Slot& sl = S(c);
+        ITree& t = *sl.t;
+        const int a = draw_key(c), b = draw_key(c);
+        const int da = ci.is_map() ? (int)src.range(0, 3) : 0, db = ci.is_map() ? (int)src.range(0, 3) : 0;
+        opname = "key_comp() / value_comp() / max_size() / get_allocator() / get_stats()";
+        lab("op:observers");
+        PBT_LOG("#" << nsteps << " " << opname << " slot " << c << " a=" << a << ":" << da << " b=" << b << ":" << db << "\n");
+        arm_keys(8);
+        const bool kl = t.less(a, b), kg = t.less(b, a);
+        bool avail = false;
+        const bool vl = t.value_less(KD(a, da), KD(b, db), avail), vg = avail ? t.value_less(KD(b, db), KD(a, da), avail) : false;
+        lab(avail ? "api:value_comp" : "api:value_comp_not_callable_for_sets");
+        if (WM) {
+            IModel& m = *sl.m;
+            BT_CHECK(kl == m.less(a, b) && kg == m.less(b, a), "comparator",
+                     "key_comp()(" << a << "," << b << ") = " << kl << ", reversed " << kg << "; the std container's key_comp() gives " << m.less(a, b) << ", " << m.less(b, a));
+            if (avail)
+                BT_CHECK(vl == m.value_less(KD(a, da), KD(b, db)) && vg == m.value_less(KD(b, db), KD(a, da)), "comparator",
+                         "value_comp()(" << a << ":" << da << ", " << b << ":" << db << ") = " << vl << ", reversed " << vg << "; the std container's value_comp() gives "
+                                         << m.value_less(KD(a, da), KD(b, db)) << ", " << m.value_less(KD(b, db), KD(a, da)));
+        }
+        // stateless allocators: always equal; arena allocators (C02): equal exactly when the two containers share an arena
+        BT_CHECK(t.alloc_equal(*S(1 - c).t) == (t.alloc_arena() == S(1 - c).t->alloc_arena()) && t.alloc_equal(t), "get-allocator",
+                 "get_allocator() of the two containers compare " << t.alloc_equal(*S(1 - c).t) << " but they are arenas " << t.alloc_arena() << " and "
+                                                                  << S(1 - c).t->alloc_arena());
+        // (max_size(), get_stats() and the comparator state are compared by the full observation below)
+        force_full = true;
+        finish(1 << c, OC_OTHER);
+        force_full = false;
+    }
+
+    //! insert(first,last) / bulk_load(first,last) / range constructors with other iterator types, empty ranges
+    void op_range_types(int c) {
+        Slot& sl = S(c);
+        unsigned what = (unsigned)src.weighted({3, 2, 2});
+        if (what == 1) return op_bulk_load(c, 1 + (unsigned)src.index(3));
+        if (what == 2) return op_construct(c, true);
+        if (sl.obs.size() >= MAXSIZE) return op_erase_sweep(c);
+        unsigned itk = 1 + (unsigned)src.index(4);
+        unsigned count = (unsigned)src.range(0, 24); // 0: empty range
+        std::vector<KD> ks;
+        if (count) draw_pattern(ks, count);
+        opname = "insert(first,last) [other iterator type]";
+        lab("op:insert_range");
+        range_label(itk);
+        if (!count) lab("api:range_empty");
+        PBT_LOG("#" << nsteps << " " << opname << " slot " << c << " iterator kind " << itk << " " << show(ks, ci.is_map()) << "\n");
+        int hb = sl.shape.height;
+        arm_keys(ks.size() + 1);
+        sl.t->insert_range_it(ks, itk);
+        if (WM) sl.m->insert_range(ks);
+        if (count) recent_key = ks.back().first;
+        if (count) note_mutation(c, false, hb);
+        finish(1 << c, OC_INSERT);
+    }
+
+    //! rvalue arguments: Tree(std::move(x)), x = std::move(y) (tlx declares no move members: both copy), and the generic
+    //! std::swap(x, y) (tlx provides no overload). The destination must hold the former contents of the source; the source is left
+    //! "valid but unspecified": whatever it holds is adopted by the model, and has to pass every check of the following steps.
+    void op_rvalue(int c) {
+        unsigned v = (unsigned)src.index(3);
+        int j = (int)src.index(2);
+        arm_bulk(s0.obs.size() + s1.obs.size());
+        if (v == 2) {
+            opname = "std::swap(a, b)";
+            lab("op:std_swap");
+            PBT_LOG("#" << nsteps << " std::swap(slot0, slot1) (sizes " << s0.obs.size() << ", " << s1.obs.size() << ")\n");
+            s0.t->std_swap(*s1.t);
+            if (WM) s0.m->swap(*s1.m);
+            std::swap(s0.bulk_pending, s1.bulk_pending);
+            finish(3, OC_OTHER);
+            return;
+        }
+        if (v == 1 && j == c) j = 1 - c; // (self-move-assignment is not generated)
+        opname = v == 0 ? "Tree(std::move(x))" : "x = std::move(y)";
+        lab(v == 0 ? "op:move_construct" : "op:move_assign");
+        PBT_LOG("#" << nsteps << " slot " << j << (v == 0 ? " = new Tree(std::move(slot " : " = std::move(slot ") << c << ") (size " << S(c).obs.size() << ")\n");
+        std::unique_ptr<IModel> expect;
+        if (WM) expect.reset(S(c).m->clone());
+        if (v == 0) {
+            std::unique_ptr<ITree> n(S(c).t->move_clone());
+            if (j != c && WM) { // the source lives on: adopt what it holds now
+                observe(c);
+                S(c).m->clear();
+                S(c).m->append(S(c).obs);
+            }
+            S(j).t = std::move(n); // destroys the previous container of slot j (j == c: the moved-from source)
+        }
+        else {
+            S(j).t->move_assign(*S(c).t);
+            if (WM) {
+                observe(c);
+                S(c).m->clear();
+                S(c).m->append(S(c).obs);
+            }
+        }
+        if (WM) S(j).m = std::move(expect);
+        S(j).bulk_pending = false;
+        finish(3, OC_OTHER);
+    }
+
     void op_relops() {
         int i = (int)src.index(2), j = (int)src.index(2);
         opname = "relational operators";
-        pbt::label("op:relops");
+        lab("op:relops");
         bool r[6];
         arm_bulk();
         S(i).t->relops(*S(j).t, r);
@@ -1270,7 +1565,7 @@ class History {
         // the containers die in one of three ways; afterwards nothing may be left behind
         PBT_LOG("end: " << (endmode == 0 ? "destroy" : endmode == 1 ? "clear() then reuse, then destroy" : "swap contents out, then destroy") << "\n");
         if (endmode == 1) {
-            pbt::label("end:clear_reuse");
+            lab("end:clear_reuse");
             op_clear(0);
             std::vector<KD> ks;
             draw_pattern(ks, 9);
@@ -1280,7 +1575,7 @@ class History {
             finish(1, OC_INSERT);
         }
         else if (endmode == 2) {
-            pbt::label("end:swap_out");
+            lab("end:swap_out");
             std::unique_ptr<ITree> x(cfg.create(shift, desc));
             x->swap(*s0.t);
             s0.t.swap(x); // slot 0 owns the contents again (now inside the other object); x is the emptied one
@@ -1288,13 +1583,13 @@ class History {
             opname = "swap contents out";
             finish(1, OC_OTHER);
         }
-        else pbt::label("end:destroy");
+        else lab("end:destroy");
         s0.t.reset();
         s1.t.reset();
         opname = "after destruction";
         if (ci.counting) {
             AllocLedger& al = AllocLedger::get();
-            if (al.frees > 0) pbt::label("nodes_freed");
+            if (al.frees > 0) lab("nodes_freed");
             BT_CHECK(al.live_count() == 0 && al.allocs == al.frees, "leak-nodes",
                      al.live_count() << " node(s) still allocated after all containers died (allocations " << al.allocs << ", frees " << al.frees << ")");
         }
@@ -1306,8 +1601,8 @@ class History {
     }
 
 public:
-    History(pbt::Source& s, const ConfigEntry& e, bool model, bool scale = false, bool alias = false)
-        : src(s), cfg(e), ci(e.info), WM(model), INV(!model), SC(scale), AL(alias), prefix(model ? "C01" : "C02") {
+    History(pbt::Source& s, const ConfigEntry& e, bool model, bool scale = false, bool alias = false, bool api = false)
+        : src(s), cfg(e), ci(e.info), WM(model), INV(!model), SC(scale), AL(alias), AP(api), prefix(model ? "C01" : "C02") {
         g_runaway.prefix = prefix;
         g_runaway.describe = &History::describe_for_runaway;
         g_runaway.self = this;
@@ -1327,7 +1622,7 @@ public:
         // element-by-element fills cost one in-node search per element: with the linear strategy that is O(n * slots)
         if (method != 0 && !ci.binary && cap > 2000) method = 0;
         if (method == 0) {
-            pbt::label("scale:fill_by_bulk_load");
+            lab("scale:fill_by_bulk_load");
             op_bulk_load(0);
             return;
         }
@@ -1337,7 +1632,7 @@ public:
         sorted_keys(0, n, sc_rep, stride, ks);
         if (method == 1) {
             opname = "insert(first,last) of an ascending range";
-            pbt::label("scale:fill_by_ascending_inserts");
+            lab("scale:fill_by_ascending_inserts");
             PBT_LOG("#" << nsteps << " " << opname << " slot 0 n=" << n << " " << show(ks, ci.is_map()) << "\n");
             arm_keys(ks.size());
             sl.t->insert_range(ks);
@@ -1345,7 +1640,7 @@ public:
         }
         else {
             opname = "Tree(first,last,cmp) of an ascending range";
-            pbt::label("scale:fill_by_range_constructor");
+            lab("scale:fill_by_range_constructor");
             PBT_LOG("#" << nsteps << " " << opname << " slot 0 n=" << n << " " << show(ks, ci.is_map()) << "\n");
             arm_keys(ks.size());
             std::unique_ptr<ITree> t(sl.t->make(4, ks, shift, desc));
@@ -1373,9 +1668,9 @@ public:
         MAXOPS = 64;
         MAXSTEPS = 160;
         COSTMAX = 2000000ul + 10ul * (unsigned long)NB; // a handful of fully compared steps on the largest fill, dozens of queries
-        pbt::label(inner_dim ? "scale:aim_at_inner_node" : "scale:aim_at_leaf");
-        if (shift) pbt::label("coarse_equivalence");
-        if (ci.stateful() && desc) pbt::label("descending_state");
+        lab(inner_dim ? "scale:aim_at_inner_node" : "scale:aim_at_leaf");
+        if (shift) lab("coarse_equivalence");
+        if (ci.stateful() && desc) lab("descending_state");
         PBT_LOG("scale config " << ci.name << " shift=" << shift << " desc=" << desc << " stride=" << stride << " rep=" << sc_rep << " fill method=" << method
                                 << " aim=" << (inner_dim ? "inner" : "leaf") << " profile=" << profile << "\n");
         for (int c = 0; c < 2; ++c) {
@@ -1434,6 +1729,11 @@ public:
         case 18: op_erase_alias(c); break;
         case 19: op_query_alias(c); break;
         case 20: op_swap_self(c); break;
+        case 21: op_subscript(c); break;
+        case 22: op_convert(c); break;
+        case 23: op_observers(c); break;
+        case 24: op_range_types(c); break;
+        case 25: op_rvalue(c); break;
         default: op_relops(); break;
         }
     }
@@ -1448,10 +1748,10 @@ public:
         desc = ci.stateful() ? (cs / 3) != 0 : false;
         profile = (unsigned)src.index(4);
         endmode = (unsigned)src.index(3);
-        if (U <= 4) pbt::label("universe<=4");
-        if (U >= 128) pbt::label("universe>=128");
-        if (shift) pbt::label("coarse_equivalence");
-        if (ci.stateful() && desc) pbt::label("descending_state");
+        if (U <= 4) lab("universe<=4");
+        if (U >= 128) lab("universe>=128");
+        if (shift) lab("coarse_equivalence");
+        if (ci.stateful() && desc) lab("descending_state");
         PBT_LOG("alias config " << ci.name << " U=" << U << " shift=" << shift << " desc=" << desc << " profile=" << profile << "\n");
         for (int c = 0; c < 2; ++c) {
             S(c).t.reset(cfg.create(shift, desc));
@@ -1482,8 +1782,49 @@ public:
         end_of_history();
     }
 
+    // ----- api mode: the complete operation set of the main and alias targets plus the public members found by the API audit ---
+    void run_api() {
+        static const int UT[16] = {8, 3, 24, 64, 1, 12, 2, 32, 6, 96, 4, 16, 48, 128, 256, 5};
+        U = UT[src.index(16)];
+        unsigned cs = (unsigned)src.index(6);
+        shift = ci.stateful() ? cs % 3 : 0;
+        desc = ci.stateful() ? (cs / 3) != 0 : false;
+        profile = (unsigned)src.index(4);
+        endmode = (unsigned)src.index(3);
+        PBT_LOG("api config " << ci.name << " U=" << U << " shift=" << shift << " desc=" << desc << " profile=" << profile << "\n");
+        for (int c = 0; c < 2; ++c) {
+            S(c).t.reset(cfg.create(shift, desc));
+            if (WM) S(c).m.reset(model_factory()(ci.kind, ci.cmp, shift, desc));
+        }
+        opname = "construct";
+        finish(3, OC_OTHER);
+        // weights: insert, erase_one, erase_iter, insert_range, erase_sweep, erase_key, insert_hint, lookup, bounds, walk,
+        //          bulk_load, copy, assign, swap, construct, clear, relops | insert_alias, erase_alias, query_alias, swap_self |
+        //          subscript / write through iterator, iterator conversions, observers, ranges of other iterator types, rvalues / std::swap
+        static const unsigned W[4][26] = {
+            {30, 12, 12, 8, 8, 5, 6, 8, 8, 6, 5, 4, 4, 4, 3, 2, 4, 6, 4, 3, 2, 14, 14, 8, 12, 8},       // balanced
+            {40, 6, 6, 10, 4, 3, 8, 6, 6, 4, 6, 3, 3, 3, 3, 1, 2, 4, 2, 2, 1, 24, 8, 4, 24, 4},         // growing through operator[] and ranges
+            {16, 16, 16, 6, 12, 6, 3, 24, 28, 16, 4, 3, 3, 3, 2, 2, 4, 3, 3, 3, 1, 8, 40, 12, 6, 4},    // queries and iterators
+            {14, 8, 8, 6, 6, 3, 3, 6, 6, 4, 10, 10, 10, 8, 10, 5, 10, 3, 2, 2, 4, 8, 8, 16, 16, 30},    // whole-container: constructors, moves, observers
+        };
+        const unsigned* w = W[profile];
+        while (nops < MAXOPS && nsteps < MAXSTEPS) {
+            if (src.exhausted()) break;
+            unsigned mb = src.u8();
+            if (mb == 0) break;
+            int c = (mb & 0xC0) == 0xC0 ? 1 : 0;
+            size_t op = src.weighted({w[0],  w[1],  w[2],  w[3],  w[4],  w[5],  w[6],  w[7],  w[8],  w[9],  w[10], w[11], w[12],
+                                      w[13], w[14], w[15], w[16], w[17], w[18], w[19], w[20], w[21], w[22], w[23], w[24], w[25]});
+            sep_changed_prev = sep_changed;
+            ++nops;
+            dispatch(op, c);
+        }
+        end_of_history();
+    }
+
     void run() {
         if (SC) return run_scale();
+        if (AP) return run_api();
         if (AL) return run_alias();
         // header: universe, comparator state, operation profile, way to die (the configuration id was drawn by the caller)
         // (ordered so that the small byte values favoured by the driver already give very different universes)
@@ -1494,10 +1835,10 @@ public:
         desc = ci.stateful() ? (cs / 3) != 0 : false;
         profile = (unsigned)src.index(5);
         endmode = (unsigned)src.index(3);
-        if (U <= 4) pbt::label("universe<=4");
-        if (U >= 128) pbt::label("universe>=128");
-        if (shift) pbt::label("coarse_equivalence");
-        if (ci.stateful() && desc) pbt::label("descending_state");
+        if (U <= 4) lab("universe<=4");
+        if (U >= 128) lab("universe>=128");
+        if (shift) lab("coarse_equivalence");
+        if (ci.stateful() && desc) lab("descending_state");
         PBT_LOG("config " << ci.name << " U=" << U << " shift=" << shift << " desc=" << desc << " profile=" << profile << "\n");
         for (int c = 0; c < 2; ++c) {
             S(c).t.reset(cfg.create(shift, desc));
@@ -1596,6 +1937,39 @@ void run_alias_property(pbt::Source& src, bool model) {
     }
     if (e.info.raw) pbt::label("api:BTree_base_class");
     History h(src, e, model, false, true);
+    h.run();
+}
+
+//! targets btree_api (C01) / btree_api_invariants (C02): configurations = the main table followed by the alias table
+void run_api_property(pbt::Source& src, bool model) {
+    static std::vector<ConfigEntry> t;
+    if (t.empty()) {
+        std::vector<ConfigEntry> a = config_table(), b = alias_table();
+        auto by_id = [](const ConfigEntry& x, const ConfigEntry& y) { return x.info.id < y.info.id; };
+        std::sort(a.begin(), a.end(), by_id);
+        std::sort(b.begin(), b.end(), by_id);
+        t = a;
+        t.insert(t.end(), b.begin(), b.end());
+    }
+    if (t.empty()) {
+        pbt::inconclusive();
+        return;
+    }
+    Ledger::get().reset();
+    AllocLedger::get().reset();
+    tlx::set_die_with_exception(true);
+    unsigned b = src.u8();
+    const ConfigEntry& e = t[((b * 37u) & 255u) % t.size()];
+    static const char* kl[4] = {"kind:set", "kind:multiset", "kind:map", "kind:multimap"};
+    pbt::label(kl[e.info.kind]);
+    {
+        static std::map<std::string, std::string> names; // label strings must outlive the case
+        std::string& l = names[e.info.elem];
+        if (l.empty()) l = std::string("elem:") + e.info.elem;
+        pbt::label(l.c_str());
+    }
+    if (e.info.raw) pbt::label("api:BTree_base_class");
+    History h(src, e, model, false, true, true);
     h.run();
 }
 
